@@ -314,15 +314,18 @@ Proof.
   erewrite bind_eq; [|erewrite bind_eq; [reflexivity|eapply setindex_mono; [|exact Hset]; lia]]. reflexivity.
 Qed.
 
+Definition store_of {A} (r : res A) (dflt : store) : store := match r with Ok _ s => s | _ => dflt end.
+
 Example compound_global_example :
   let st := SCompound BConcat (EIdent [103]) (EString [33]) in
   let s0 := initial_store [] in
-  exists s1 s', exec_stmt Luau 9 [] [] (SAssign [EIdent [103]] [EString [104]]) s0 = Ok ([], SigNone) s1 /\
-                lookup [] [103] = None /\ is_ext_name [103] = false /\ global_read s1 [103] = Some (VStr [104]) /\
-                exec_stmt Luau 9 [] [] st s1 = Ok ([], SigNone) s' /\
-                exec_stmt Luau 9 [] [] (rw_compound_assign st) s1 = Ok ([], SigNone) s' /\
-                global_read s' [103] = Some (VStr [104; 33]).
-Proof. vm_compute. eexists. eexists. repeat split. Qed.
+  let s1 := store_of (exec_stmt Luau 9 [] [] (SAssign [EIdent [103]] [EString [104]]) s0) s0 in
+  let s' := store_of (exec_stmt Luau 9 [] [] st s1) s1 in
+  lookup [] [103] = None /\ is_ext_name [103] = false /\ global_read s1 [103] = Some (VStr [104]) /\
+  exec_stmt Luau 9 [] [] st s1 = Ok ([], SigNone) s' /\
+  exec_stmt Luau 9 [] [] (rw_compound_assign st) s1 = Ok ([], SigNone) s' /\
+  global_read s' [103] = Some (VStr [104; 33]).
+Proof. vm_compute. repeat split. Qed.
 
 (** The order of evaluation matters: without [leaves_cell] the rewritten statement is NOT
     equivalent in the reference semantics ([x += f()] where [f] assigns [x]) *)
